@@ -64,6 +64,10 @@ func run(r *ev.Recorder, c *call) (key, msg, guard string) {
 	// re-slices its arguments would write there
 	gMsg, okMsg := pu.Guard(c.Msg)
 	gSig, okSig := pu.Guard(c.Sig)
+	if (len(c.Sig)+len(c.Msg))%2 == 1 {
+		// every other case: slices whose capacity ends with their length (an out-of-range read cannot hide in spare capacity)
+		gMsg, gSig = gMsg[:len(gMsg):len(gMsg)], gSig[:len(gSig):len(gSig)]
+	}
 	var resB bool
 	var resLen int
 	var pkX [67]byte
@@ -483,11 +487,29 @@ func buildPhrase(kind int, seed uint64, n int) string {
 			ws[next(n)] = []string{"", "Aback", "aback\x00", "été", "zzzz", "a b", "\t"}[next(7)]
 		}
 		return strings.Join(ws, " ")
-	case 5: // other separators
+	case 5: // other separators: everywhere, or at one / two / three places between otherwise blank-separated words
 		for i := 0; i < n; i++ {
 			ws = append(ws, word())
 		}
-		return strings.Join(ws, []string{"  ", "\t", "\n", ",", " "}[next(5)])
+		sep := []string{"  ", "\t", "\n", ",", " ", "\r\n", "\u00a0", "\u2003"}[next(8)]
+		if next(3) == 0 || n < 4 {
+			return strings.Join(ws, sep)
+		}
+		p := strings.Join(ws, " ")
+		for k := 1 + next(3); k > 0; k-- {
+			idx := 0
+			for j := 1 + next(n-1); j > 0; j-- {
+				nx := strings.Index(p[idx:], " ")
+				if nx < 0 {
+					break
+				}
+				idx += nx + 1
+			}
+			if idx > 0 {
+				p = p[:idx-1] + sep + p[idx:]
+			}
+		}
+		return p
 	case 6: // very long
 		for i := 0; i < n*1000; i++ {
 			ws = append(ws, word())
@@ -500,8 +522,8 @@ func buildPhrase(kind int, seed uint64, n int) string {
 			ws = append(ws, word())
 		}
 		return strings.Join(ws, " ") + " \xff\xfe"
-	case 9: // exactly the accepted sizes +- 1 word
-		k := []int{31, 32, 33, 34, 35}[next(5)]
+	case 9: // the accepted sizes +- 1 word, and word counts whose decoded size equals 48 / 51 modulo 256
+		k := []int{31, 32, 33, 34, 35, 544, 546, 1056, 1058, 202, 204}[next(11)]
 		for i := 0; i < k; i++ {
 			ws = append(ws, word())
 		}
